@@ -11,6 +11,7 @@ from __future__ import annotations
 import heapq
 import importlib
 import itertools
+import os
 import socket as _socket
 import sys
 
@@ -255,16 +256,38 @@ class ScriptedRandom(object):
 SR = ScriptedRandom()
 
 
-def install():
-  """Patches the scales modules once per process (idempotent)."""
-  if _installed[0]:
-    return
-  import scales  # noqa
+def _patch_modules():
+  """time / gevent / Event / random as seen from inside scales modules -> the virtual ones. Covers the listed modules and
+  every other scales module that is loaded (a module may start using the clock after this harness was written)."""
+  import sys as _sys
   for name in SCALES_MODULES:
     try:
-      mod = importlib.import_module(name)
+      importlib.import_module(name)
     except Exception:
       continue
+  for name, mod in list(_sys.modules.items()):
+    if mod is None or not (name == 'scales' or name.startswith('scales.')):
+      continue
+    if os.environ.get('VWORLD_PATCH_LISTED_ONLY') and name not in SCALES_MODULES:
+      continue
+    if hasattr(mod, 'time') and not isinstance(getattr(mod, 'time'), _TimeProxy) and getattr(mod.time, '__name__', '') == 'time':
+      mod.time = TP
+    if hasattr(mod, 'gevent') and getattr(mod.gevent, '__name__', '') == 'gevent':
+      mod.gevent = GP
+    if getattr(mod, 'Event', None) is REvent:
+      mod.Event = VEvent
+    if hasattr(mod, 'random') and getattr(mod.random, '__name__', '') == 'random':
+      mod.random = SR
+
+
+def install():
+  """Patches the scales modules (module-level names on every call, the rest once per process)."""
+  import scales  # noqa
+  _patch_modules()
+  if _installed[0]:
+    return
+  for name in []:
+    mod = None
     if hasattr(mod, 'time') and not isinstance(getattr(mod, 'time'), _TimeProxy) and getattr(mod.time, '__name__', '') == 'time':
       mod.time = TP
     if hasattr(mod, 'gevent') and getattr(mod.gevent, '__name__', '') == 'gevent':
